@@ -220,7 +220,7 @@ IdxNames == {N(<<48>>), N(<<49>>), N(<<50>>), N(<<48, 49>>), N(<<43, 49>>), N(<<
 LenName == N(S_length)
 LenVals == {IntV(0), IntV(1), IntV(2), IntV(3), NumV(U32Max), NumV(Pow2(32)), IntV(-1), NumV(NumAdd(I(1), Half)), NumV(NaN),
             StrV(<<50>>), StrV(<<120>>), BoolV(TRUE), Null, Undef, NumV(NZero), StrV(<<50, 46, 48>>),
-            CoNum(1, 2), CoThrow(1), CO(1, RetP(NumV(NumAdd(I(1), Half))), RetP(StrV(<<120>>))), CO(1, RetP(StrV(<<49>>)), Inh)}
+            CoNum(1, 2), CoThrow(2), CO(3, RetP(NumV(NumAdd(I(1), Half))), RetP(StrV(<<120>>))), CO(4, RetP(StrV(<<49>>)), Inh)}
    \* the last four: objects whose valueOf returns 2 / throws / returns 1.5 / returns "1" (15.4.5.1 3.c-d convert twice)
 DD(v, w, e, c) == S!FullDataDesc(v, w, e, c)
 ED == S!EmptyDesc
@@ -230,7 +230,8 @@ LenDescs == {S!ValueDesc(v) : v \in {IntV(0), IntV(1), IntV(2), IntV(3), NumV(U3
             \cup {[ED EXCEPT !.hv = TRUE, !.v = v, !.hw = TRUE, !.w = w] : v \in {IntV(0), IntV(1), IntV(2)}, w \in BOOLEAN}
             \cup {[ED EXCEPT !.hw = TRUE, !.w = w] : w \in BOOLEAN}
             \cup {[ED EXCEPT !.he = TRUE, !.e = TRUE], [ED EXCEPT !.hc = TRUE, !.c = TRUE], [ED EXCEPT !.hc = TRUE, !.c = FALSE], ED}
-            \cup {S!ValueDesc(CoNum(1, 1)), [ED EXCEPT !.hv = TRUE, !.v = CoNum(1, 0), !.hw = TRUE, !.w = FALSE]}
+            \cup {S!ValueDesc(CoNum(5, 1)), [ED EXCEPT !.hv = TRUE, !.v = CoNum(6, 0), !.hw = TRUE, !.w = FALSE]}
+   \* (every scripted object has its own id: the harness identifies them by id within one history)
 
 HistActions ==
     {[op |-> "assign", n |-> n, v |-> v] : n \in IdxNames, v \in {V1, V2}}
